@@ -513,7 +513,7 @@ Qed.
 (* create_backup: crash consistency and completeness                   *)
 (* ------------------------------------------------------------------ *)
 Lemma backup_root_eq b r : backup_root b ++ r = backup_dir b ++ s_backup_root :: r.
-Proof. reflexivity. Qed.
+Proof. unfold backup_root. rewrite <- app_assoc. reflexivity. Qed.
 
 Lemma backup_lock_eq b : backup_lock b = backup_dir b ++ [s_backup_lock].
 Proof. reflexivity. Qed.
@@ -1336,3 +1336,90 @@ Lemma ex_nonvacuous :
   (get_backups (crash ex_f0 (create_effects ex_b ex_files ex_ts) 5 (Some 20)) = Exn ValueError /\
    get_backups (crash ex_f0 (create_effects ex_b ex_files ex_ts) 4 (Some 0)) = Exn HedFileError).
 Proof. exact (conj ex_hyps (conj ex_listed ex_partial_raises)). Qed.
+
+(* ------------------------------------------------------------------ *)
+(* Spellings of a backup name that resolve to the same directory       *)
+(* ------------------------------------------------------------------ *)
+Lemma split_on_nonempty c s : split_on c s <> [].
+Proof.
+  destruct s as [|x s]; simpl; [discriminate|].
+  destruct (N.eqb x c); [discriminate|]. destruct (split_on c s); discriminate.
+Qed.
+
+Lemma split_on_sep c a r : split_on c (a ++ c :: r) = split_on c a ++ split_on c r.
+Proof.
+  induction a as [|x a IH]; simpl.
+  - rewrite N.eqb_refl. reflexivity.
+  - destruct (N.eqb x c); [rewrite IH; reflexivity|].
+    rewrite IH. pose proof (split_on_nonempty c a) as Hne.
+    destruct (split_on c a) as [|h t]; [congruence|]. reflexivity.
+Qed.
+
+Lemma key_path_sep a r : key_path (a ++ ch_slash :: r) = key_path a ++ key_path r.
+Proof. unfold key_path. rewrite split_on_sep. apply filter_app. Qed.
+
+Lemma alias_spellings b :
+  key_path (b ++ [ch_slash]) = key_path b /\
+  key_path (ch_dot :: ch_slash :: b) = key_path b /\
+  key_path (b ++ [ch_slash; ch_dot]) = key_path b /\
+  key_path (b ++ [ch_slash; ch_slash]) = key_path b /\
+  key_path (ch_dot :: ch_slash :: b ++ [ch_slash; ch_slash; ch_dot; ch_slash]) = key_path b.
+Proof.
+  assert (H1 : key_path (b ++ [ch_slash]) = key_path b).
+  { rewrite key_path_sep. apply app_nil_r. }
+  assert (H2 : forall x, key_path (ch_dot :: ch_slash :: x) = key_path x).
+  { intro x. change (ch_dot :: ch_slash :: x) with ([ch_dot] ++ ch_slash :: x).
+    rewrite key_path_sep. reflexivity. }
+  split; [|split; [|split; [|split]]].
+  - exact H1.
+  - apply H2.
+  - rewrite key_path_sep. apply app_nil_r.
+  - rewrite key_path_sep. apply app_nil_r.
+  - rewrite H2. rewrite key_path_sep.
+    change [ch_slash; ch_dot; ch_slash] with ([] ++ ch_slash :: [ch_dot; ch_slash]).
+    rewrite key_path_sep. apply app_nil_r.
+Qed.
+
+Lemma backup_dir_alias b b' : key_path b' = key_path b -> backup_dir b' = backup_dir b.
+Proof. intro H. unfold backup_dir, name_path. rewrite H. reflexivity. Qed.
+
+(* any spelling b' that resolves to the directory of a backup a fresh manager lists is
+   refused by the repaired code, whatever the calling manager has cached *)
+Lemma never_overwritten_alias m f files b b' ts mdisk rec :
+  key_path b' = key_path b ->
+  get_backups f = Ok mdisk -> mgr_get mdisk b = Some rec ->
+  create_backup true m f files b' ts = (f, m, Ok false).
+Proof.
+  intros Ha Hg Hm. apply never_overwritten_lemma. rewrite (backup_dir_alias b b' Ha).
+  eapply check_one_ok_dir. eapply get_backups_inv; eassumption.
+Qed.
+
+(* crash of create_backup b, later create_backup under any spelling of the same directory *)
+Lemma crash_then_create_alias b b' files ts f0 :
+  key_path b' = key_path b ->
+  (forall p, under (backup_dir b) p = true -> lookup f0 p = None) ->
+  forall i k m files' ts',
+    let fc := crash f0 (create_effects b files ts) i k in
+    fc = f0 \/ create_backup true m fc files' b' ts' = (fc, m, Ok false).
+Proof.
+  intros Ha Hfresh i k m files' ts' fc. subst fc.
+  destruct i as [|i].
+  - left. unfold create_effects. simpl. destruct k; reflexivity.
+  - right. apply never_overwritten_lemma. rewrite (backup_dir_alias b b' Ha).
+    unfold create_effects. cbn [app].
+    rewrite (crash_cons_S _ _ f0 (set (backup_dir b) Dir f0)).
+    + apply crash_exists. unfold exists_. rewrite lookup_set_same. reflexivity.
+    + cbn [apply]. rewrite (Hfresh _ (under_dir_self b)). reflexivity.
+Qed.
+
+(* the seeded class: "b1/" on the witness tree, refused; a guard that compares the raw name
+   with the directory entries would let it through (the pre-fix program does) *)
+Definition ex_b_slash : name := ex_b ++ [ch_slash].
+Lemma ex_alias_refused :
+  create_backup true [] ex_f2 ex_files ex_b_slash ex_ts = (ex_f2, [], Ok false) /\
+  (exists f' m', create_backup false [] ex_f2 ex_files ex_b_slash ex_ts = (f', m', Ok true) /\
+     read f' (get_backup_path ex_b [ex_sub; ex_a]) <> read ex_f2 (get_backup_path ex_b [ex_sub; ex_a])).
+Proof.
+  split; [vm_compute; reflexivity|].
+  eexists. eexists. split; [vm_compute; reflexivity|]. vm_compute. discriminate.
+Qed.
